@@ -47,6 +47,38 @@ theorem index_ops_match_code :
       ["Delete:KeyPrefixTokenPair", "Delete:KeyPrefixTokenPairByDenom", "Delete:KeyPrefixTokenPairByERC20", "DeleteAliases"] := by
   decide
 
+/-- **the guards of the index operations as modelled are the guards as written** (conditions and errors regenerated from
+the AST, in source order, loops over the aliases included).  `stepIdx` checks, in the same order: registration —
+denomination not registered, denomination not an alias, every alias ≠ the denomination / not a registered denomination /
+not an alias of anything (`aliasesOk`), stored metadata equal (coin) or absent (ERC-20), contract not registered
+(ERC-20); alias update — denomination registered, alias not a registered denomination, metadata present; and the alias
+list is rebuilt by skipping exactly the removed alias (`old.filter (· ≠ a)`) or extended at the end (`old ++ [a]`). -/
+theorem index_guards_match_code :
+    FxVerif.Gen.C08.registerNativeCoin_guards =
+      [("!k.GetEnableErc20(ctx)", "ErrERC20Disabled"),
+       ("k.IsDenomRegistered(ctx, coinMetadata.Base)", "ErrTokenPairAlreadyExists"),
+       ("k.IsAliasDenomRegistered(ctx, coinMetadata.Base)", "ErrInvalidMetadata"),
+       ("alias == coinMetadata.Base || alias == coinMetadata.Display || alias == coinMetadata.Symbol", "ErrInvalidMetadata"),
+       ("k.IsDenomRegistered(ctx, alias)", "ErrInvalidMetadata"),
+       ("k.IsAliasDenomRegistered(ctx, alias)", "ErrInvalidMetadata"),
+       ("err := types.EqualMetadata(meta, coinMetadata); err != nil", "ErrInvalidMetadata")] ∧
+    FxVerif.Gen.C08.registerNativeERC20_guards =
+      [("!k.GetEnableErc20(ctx)", "ErrERC20Disabled"),
+       ("k.IsERC20Registered(ctx, contract)", "ErrTokenPairAlreadyExists"),
+       ("erc20Data.Symbol == fxtypes.DefaultDenom || k.IsDenomRegistered(ctx, base)", "ErrInternalTokenPair"),
+       ("k.IsAliasDenomRegistered(ctx, base)", "ErrInternalTokenPair"),
+       ("alias == base || alias == erc20Data.Symbol", "ErrInvalidAlias"),
+       ("k.IsDenomRegistered(ctx, alias)", "ErrInvalidAlias"),
+       ("k.IsAliasDenomRegistered(ctx, alias)", "ErrInvalidAlias"),
+       ("k.bankKeeper.HasDenomMetaData(ctx, base)", "ErrInternalTokenPair")] ∧
+    FxVerif.Gen.C08.updateDenomAliases_guards =
+      [("!k.IsDenomRegistered(ctx, denom)", "ErrInvalidDenom"), ("k.IsDenomRegistered(ctx, alias)", "ErrInvalidDenom"),
+       ("!found", "ErrInvalidMetadata")] ∧
+    FxVerif.Gen.C08.updateAlias_removeFilter =
+      ["range oldAliases", "if denomAlias == alias { continue }", "newAliases = append(newAliases, denomAlias)"] ∧
+    FxVerif.Gen.C08.updateAlias_addExpr = "append(oldAliases, alias)" := by
+  decide
+
 /-! ### convert_exact -/
 
 macro "bal_done" : tactic =>
